@@ -86,7 +86,8 @@ def w_matrix(case):
         targets = [(d, n) for d in DIRS for n in ALLNAMES]
         # the volume offered to matches() is the pattern's own volume (as `info` does); ask in two passes
         first = b''.join(mcx.req_afsp(cd, cs, cdir, p.encode('latin-1'), []) for p in pats)
-        r = mcx.call('san', first)
+        variant = case.get('variant', 'san')
+        r = mcx.call(variant, first)
         if r.status() != 'exit0':
             from lib import mcb
             k, fr = mcb.san_kind(r.err)
@@ -120,7 +121,7 @@ def w_matrix(case):
                 bump(res, 'ill-formed-' + ('accepted' if valid else 'rejected'))
             res['n'] += 1
         if req:
-            r = mcx.call('san', req)
+            r = mcx.call(variant, req)
             if r.status() != 'exit0':
                 from lib import mcb
                 k, fr = mcb.san_kind(r.err)
@@ -132,18 +133,23 @@ def w_matrix(case):
                 rd.u8()
                 rd.str()
                 rd.vol()
-                for d, n in targets:
-                    got = rd.u8()
-                    want = 1 if ref_match(parsed, d, n) else 0
-                    if got != want:
+                dm = {d: wild(parsed[2], d) for d in DIRS}
+                nm = {n: wild(parsed[3], n) for n in ALLNAMES}
+                want_all = bytes(1 if (dm[d] and nm[n]) else 0 for d, n in targets)
+                got_all = rd.bytes(len(targets))
+                if got_all == want_all:
+                    bump(res, 'agree', len(targets))
+                else:
+                    for (d, n), got, want in zip(targets, got_all, want_all):
+                        if got == want:
+                            bump(res, 'agree')
+                            continue
                         bump(res, 'mismatch')
                         cls = 'case' if (p.lower() != p or p.upper() != p) and ref_match(('ok', None, parsed[2].lower(), parsed[3].lower()), d.lower(), n.lower()) == bool(got) else 'wild'
                         meta = metaclass(p)
                         res['viol'].append(('C15:matcher:%s:%s' % ('false-match' if got else 'missed-match', meta or cls),
                                             'pattern %r (context :%d%s.%s) vs %s.%s: matcher says %d, DFS semantics say %d' % (
                                                 p, cd, cs or '', cdir, d, n, got, want)))
-                    else:
-                        bump(res, 'agree')
                 res['n'] += len(targets)
         res['ntcount'] = len(pats) * len(targets)
         res['nt'].append((tuple(case['ctx']), pats[0], len(pats)))
@@ -216,6 +222,10 @@ def w_info(case):
 
 def case_variants(s):
     out = set([s, s.lower(), s.upper(), s.swapcase()])
+    # a "case fold" that ignores bit 5 of every character would also identify @ with `, [ with {, \ with |,
+    # ] with }, ^ with ~ : those spellings are different names and must not be found
+    part = ''.join(chr(ord(c) ^ 0x20) if c in '@[\\]^_`{|}~' else c for c in s)
+    out.add(part)
     return sorted(out)
 
 
@@ -336,7 +346,9 @@ def fam_matrix(tier):
     for ci, ctx in enumerate(ctxs):
         use = pats + shaped if ci == 0 or tier == 'thorough' else pats[:600] + shaped[::5]
         for i in range(0, len(use), 40):
-            yield {'w': 'matrix', 'ctx': list(ctx), 'patterns': use[i:i + 40]}
+            # the matcher recompiles a regular expression for every name it is offered; under ASan that dominates,
+            # so one shard in eight runs on the ASan build and the rest on the plain build
+            yield {'w': 'matrix', 'ctx': list(ctx), 'patterns': use[i:i + 40], 'variant': 'san' if (i // 40) % 8 == 0 else 'plain'}
 
 
 def fam_info(tier):
